@@ -223,6 +223,38 @@ def build_channel_specs():
         return (float(v[1]), float(v[2]), float(v[3]))
     S.append(Spec("asymmetric_depolarize", (2,), asym, lambda p: cirq.asymmetric_depolarize(p[0], p[1], p[2]),
                   lambda p: G.asymmetric_depolarize(*p), kind="channel"))
+    # the same channel family given as a dictionary {Pauli string: probability}: keys in any order, the identity string
+    # optional (it then gets the remaining probability), one or two qubits
+    def asym_dict(n):
+        def sample(rng):
+            import itertools
+            keys = ["".join(t) for t in itertools.product("IXYZ", repeat=n)]
+            ident = "I" * n
+            k = int(rng.integers(1, min(len(keys) - 1, 4) + 1))
+            chosen = [keys[int(i)] for i in rng.choice(np.arange(1, len(keys)), size=k, replace=False)]
+            v = rng.dirichlet(np.ones(k + 1))
+            items = [(c, float(x)) for c, x in zip(chosen, v[:k])]
+            if rng.random() < 0.6:
+                # identity listed explicitly: the probabilities then have to sum to one
+                items.append((ident, float(1.0 - sum(x for _, x in items))))
+            order = rng.permutation(len(items))
+            return (tuple(items[int(i)] for i in order),)
+        return sample
+
+    def asym_dict_ref(p, n):
+        items = dict(p[0])
+        ident = "I" * n
+        rest = 1.0 - sum(v for k_, v in items.items() if k_ != ident)
+        out = [math.sqrt(max(rest, 0.0)) * G.pauli_string_matrix(ident)] if rest > 1e-15 else []
+        for k_, v in p[0]:
+            if k_ != ident and v > 0:
+                out.append(math.sqrt(v) * G.pauli_string_matrix(k_))
+        return out
+
+    for n_ in (1, 2):
+        S.append(Spec("asymmetric_depolarize_dict%d" % n_, (2,) * n_, asym_dict(n_),
+                      lambda p: cirq.asymmetric_depolarize(error_probabilities=dict(p[0])),
+                      lambda p, n_=n_: asym_dict_ref(p, n_), kind="channel"))
     for d in (2, 3):
         S.append(Spec("reset_d%d" % d, (d,), lambda rng: (), lambda p, d=d: cirq.ResetChannel(dimension=d),
                       lambda p, d=d: G.reset(d), kind="channel"))
